@@ -780,3 +780,33 @@ def c12_sweep_family(quick: bool, rng: random.Random) -> list:
             st += [("idle",), ("ev", "chunk", [{"k": "A", "key": 1}]), ("idle",)]
             out.append((cfg, st))
     return out
+
+
+# ------------------------------------------------------------------- C09
+def c09_family(rng: random.Random, quick: bool) -> list:
+    """Device behaviours that must not make an awaited call misbehave: duplicate / late / early responses in one chunk or across
+    chunks, responses for a call that has already ended, silence until the time-out, a close at every point of the exchange."""
+    out = []
+    dups = [
+        [{"k": "B"}, {"k": "B"}], [{"k": "B"}, {"k": "B"}, {"k": "B"}], [{"k": "done"}, {"k": "done"}], [{"k": "A", "key": 1}, {"k": "done"}, {"k": "A", "key": 1}, {"k": "done"}],
+        [{"k": "A", "key": 1}, {"k": "A", "key": 1}], [{"k": "B"}, {"k": "discreq"}, {"k": "B"}], [{"k": "B"}, {"k": "garbage"}], [{"k": "unknown", "id": 250}, {"k": "B"}, {"k": "unknown", "id": 0}],
+    ]
+    enders = [[], [("ev", "eof")], [("ev", "reset")], [("ev", "force")], [("ev", "disconnect")], [("ev", "writefail", True), ("ev", "chunk", [{"k": "pingreq"}])], [("tick",)], [("ev", "cancel_call", "c1")]]
+    for cfg in DEFAULT_CFGS:
+        for mode in ("single", "list", "filter"):
+            for d in dups:
+                for e in enders:
+                    for g in ([], [("iter", 1)], [("idle",)]):
+                        st = happy_connect(cfg) + [("ev", "call", "c1", mode, 1)] + g + [("ev", "chunk", d)] + g + e + g + [("ev", "chunk", d)] + [("idle",), ("ev", "call", "c2", mode, 1), ("idle",), ("tick",), ("tick",)]
+                        out.append((cfg, st))
+    if quick and len(out) > 1200:
+        out = rng.sample(out, 1200)
+    return out
+
+
+DEFAULT_CFGS = [
+    dict(noise=False, exp="dev", login=True, K=20000),
+    dict(noise=True, exp="none", login=False, K=20000),
+    dict(noise=False, exp="none", login=False, K=20000),
+    dict(noise=True, exp="dev", login=True, K=20000),
+]
